@@ -97,6 +97,8 @@ type cwWorld struct {
 	etxSeq      uint64
 	owner       *common.Address    // deployed lockup-owner contract (nil until deployed)
 	store       *common.Address    // deployed storage contract
+	wrapper     *common.Address    // deployed contract that forwards its call data to the lockup precompile (holds wrapped Qi)
+	wrapped     []common.Address   // Quai beneficiaries of wrapping transactions made so far
 	emitted     types.Transactions // coinbase ETXs emitted by the zone since the last region block
 	hist        map[string]int
 	spentInPool map[string]bool           // outpoints the generator already used in a submitted Qi transaction
@@ -248,9 +250,19 @@ func (w *cwWorld) rewardAddr() common.Address {
 	}
 	if w.rc.Chance(50) {
 		ws, _ := cwWatch()
-		return ws[w.rc.Intn(len(ws))]
+		return ws[w.rc.Intn(len(ws)-1)] // the last watch address is reserved for conversions
 	}
 	return w.randQuaiAddr()
+}
+
+// convAddr: recipient of a Qi->Quai conversion; half of them go to a watch address that receives nothing else, so that
+// its balance is exactly what matured conversions credited
+func (w *cwWorld) convAddr() common.Address {
+	if w.rc.Chance(50) {
+		ws, _ := cwWatch()
+		return ws[len(ws)-1]
+	}
+	return w.rewardAddr()
 }
 func (w *cwWorld) randQiAddr() common.Address { return w.qi[w.rc.Intn(len(w.qi))].addr }
 
@@ -324,7 +336,11 @@ func (w *cwWorld) synthInbound(blkNum uint64) types.Transactions {
 		// times; always the same miner and byte, so that the record usually exists before the block
 		to, lock := w.quai[0].addr, byte(1)
 		for i, k := 0, 2+rc.Intn(2); i < k; i++ {
-			data := append(append([]byte{lock}, w.owner.Bytes()...), w.etxHash().Bytes()...)
+			data := append([]byte{lock}, w.owner.Bytes()...)
+			if rc.Chance(50) {
+				data = append(data, w.quai[1+rc.Intn(2)].addr.Bytes()...) // the delegate may change with every coinbase
+			}
+			data = append(data, w.etxHash().Bytes()...)
 			add("cb-quai-burst", &types.ExternalTx{OriginatingTxHash: w.etxHash(), ETXIndex: uint16(200 + i), Gas: params.TxGas, To: &to, Value: big.NewInt(1e15 + int64(rc.Intn(1e9))), Data: data, Sender: to, EtxType: types.CoinbaseType})
 		}
 	}
@@ -351,7 +367,7 @@ func (w *cwWorld) synthInbound(blkNum uint64) types.Transactions {
 			gas := params.TxGas + uint64(rc.Intn(12))*params.CallValueTransferGas
 			add("conv-to-qi", &types.ExternalTx{OriginatingTxHash: w.etxHash(), ETXIndex: uint16(i), Gas: gas, To: &to, Value: w.qiAmount(), Sender: from, EtxType: types.ConversionType})
 		case 5: // Qi -> Quai conversion arriving
-			to, from := w.rewardAddr(), w.randQiAddr()
+			to, from := w.convAddr(), w.randQiAddr()
 			add("conv-to-quai", &types.ExternalTx{OriginatingTxHash: w.etxHash(), ETXIndex: uint16(i), Gas: params.TxGas * 2, To: &to, Value: big.NewInt(1e14 + int64(rc.Intn(1e9))), Sender: from, EtxType: types.ConversionType})
 		case 6: // reverted conversion: refunds
 			if rc.Bool() {
@@ -511,6 +527,15 @@ func storeCode() []byte {
 	return a.b
 }
 
+// lkForwardCode: a contract that hands its whole call data to the lockup precompile: a 20-byte input claims a wrapped-Qi
+// deposit made in its name, a 60-byte input unwraps Qi to a Qi address
+func lkForwardCode(lockup common.Address) []byte {
+	a := &asm{}
+	a.op(vm.CALLDATASIZE).pushN(0).pushN(0).op(vm.CALLDATACOPY)
+	a.pushN(0).pushN(0).op(vm.CALLDATASIZE).pushN(0).pushN(0).pushB(lockup.Bytes()).pushN(2_000_000).op(vm.CALL).op(vm.POP).op(vm.STOP)
+	return a.b
+}
+
 func (w *cwWorld) userActivity() {
 	if w.rg.preTx {
 		return
@@ -572,6 +597,11 @@ func (w *cwWorld) userActivity() {
 			txs.add(w.signQuai(a, nil, big.NewInt(0), code, 3000000, types.AccessTuple{Address: addr}))
 			w.store = &addr
 			w.count("tx:deploy-store")
+		case k < 7 && w.wrapper == nil && headNum >= 6:
+			code, addr := grindCreate(a.addr, a.nonce, initCodeFor(lkForwardCode(vm.LockupContractAddresses[[2]byte{0, 0}])), w.node.loc)
+			txs.add(w.signQuai(a, nil, big.NewInt(0), code, 3000000, types.AccessTuple{Address: addr}))
+			w.wrapper = &addr
+			w.count("tx:deploy-wrapper")
 		case k < 9 && w.store != nil:
 			data := make([]byte, 64)
 			data[31] = byte(rc.Intn(6))
@@ -602,6 +632,39 @@ func (w *cwWorld) userActivity() {
 			}
 			txs.add(w.signQuai(a, &to, amt, slipData, 200000, types.AccessTuple{Address: to}))
 			w.count("tx:convert-to-qi")
+		}
+	}
+	// wrapped Qi: accept deposits made in the wrapper contract's name, unwrap part of what it holds
+	if w.wrapper != nil && len(w.wrapped) > 0 && rc.Chance(50) {
+		lc := vm.LockupContractAddresses[[2]byte{0, 0}]
+		a := w.quai[rc.Intn(len(w.quai))]
+		if w.plan == nil || a != w.plan.deployer {
+			cur = a
+			held := new(big.Int)
+			if st, err := w.node.hc.StateAt(w.head().EVMRoot(), w.head().EtxSetRoot(), w.head().QuaiStateSize()); err == nil {
+				li, _ := lc.InternalAndQuaiAddress()
+				wi, _ := w.wrapper.InternalAndQuaiAddress()
+				held = st.GetState(li, common.BytesToHash(wi[:])).Big()
+			}
+			if held.Sign() == 0 || rc.Chance(40) {
+				b := w.wrapped[rc.Intn(len(w.wrapped))]
+				txs.add(w.signQuai(a, w.wrapper, big.NewInt(0), b.Bytes(), 400000, types.AccessTuple{Address: *w.wrapper}, types.AccessTuple{Address: lc}))
+				w.count("tx:claim-qi-deposit")
+			} else {
+				// amounts with and without the small notes that an unwrap does not mint; sometimes more than is held
+				var opts []*big.Int
+				for _, v := range []int64{500, 600, 1500, 5500, 1000, 6000, 100, 1} {
+					if held.Cmp(big.NewInt(v)) >= 0 {
+						opts = append(opts, big.NewInt(v))
+					}
+				}
+				opts = append(opts, new(big.Int).Set(held), new(big.Int).Add(held, big.NewInt(1)))
+				amt := opts[rc.Intn(len(opts))]
+				data := append(append([]byte{}, w.randQiAddr().Bytes()...), common.LeftPadBytes(amt.Bytes(), 32)...)
+				data = append(data, 0, 0, 0, 0, 0, 1, 0x86, 0xa0) // ETX gas limit 100000
+				txs.add(w.signQuai(a, w.wrapper, big.NewInt(0), data, 600000, types.AccessTuple{Address: *w.wrapper}, types.AccessTuple{Address: lc}))
+				w.count("tx:unwrap-qi")
+			}
 		}
 	}
 	// Qi side: spend unlocked outputs of the generator's keys
@@ -814,13 +877,23 @@ func (w *cwWorld) qiSpend(height uint64) *types.Transaction {
 	if w.convertQi && rc.Chance(35) && w.head().PrimeTerminusNumber().Uint64() >= params.ControllerKickInBlock {
 		// Qi -> Quai conversion: every output goes to one Quai address of this zone; the data carries the sender's
 		// slippage bound (2 bytes, basis points) and the Qi address a refused conversion is refunded to
-		to := w.rewardAddr()
+		to := w.convAddr()
 		for i := range outs {
 			outs[i] = *types.NewTxOut(outs[i].Denomination, to.Bytes(), big.NewInt(0))
 		}
 		slip := []uint16{0, 10, 100, 1000, 5000, 9000, 9999}[rc.Intn(7)]
 		data = append([]byte{byte(slip >> 8), byte(slip)}, w.qi[picked[0].key].addr.Bytes()...)
 		w.count("tx:qi-convert-to-quai")
+	}
+	if data == nil && w.wrapper != nil && rc.Chance(30) {
+		// wrapping: every output goes to one Quai beneficiary, the data names the contract that will hold the wrapped Qi
+		to := w.quai[rc.Intn(len(w.quai))].addr
+		for i := range outs {
+			outs[i] = *types.NewTxOut(outs[i].Denomination, to.Bytes(), big.NewInt(0))
+		}
+		data = append([]byte{}, w.wrapper.Bytes()...)
+		w.wrapped = append(w.wrapped, to)
+		w.count("tx:qi-wrap")
 	}
 	inner := &types.QiTx{ChainID: w.node.sl.Config().ChainID, TxIn: ins, TxOut: outs, Data: data}
 	tx := utSign(inner, privs)
